@@ -112,6 +112,19 @@ theorem toggles_erasable (env : Env) (tot : Total env) (a b : St) (h : Sim a b) 
 example : obs exEnvT (initSt .off) ([Op.dbg .tron, .ret [intVal 3], .dbg .troff, .call [], .dbg .on].filter (fun o => !isDbg o))
         = eraseToks [Op.dbg .tron, .ret [intVal 3], .dbg .troff, .call [], .dbg .on] ["ok", "ok", "ok", "->r:3", "ok"] := by decide
 
+/-- Variable mocks (Var / UnExportedVar: Set, Apply, Reset): what the test reads from the variable, and the variable's
+    final value, do not depend on the logging configuration the process started in nor on switches flipped in between.
+    Full on the model (the debug line of var.go:53/:87, ue_var.go:60 renders nothing but the mocker's name). -/
+theorem var_transparent (cfg : Cfg) (v : Val) (ops : List VarOp) :
+    (varRun (varInit cfg v) ops).1 = (varRun (varInit .off v) ops).1 ∧
+    (varRun (varInit cfg v) ops).2.cur = (varRun (varInit .off v) ops).2.cur :=
+  varRun_sim ops _ _ rfl rfl
+
+/-- a pointer variable that is nil before the mock: the debug run logs, the off run does not, the reads agree and Reset restores nil -/
+example : (varRun (varInit .debug nilPtr) [.set (intVal 1), .read, .reset, .read]).1 = ["ok", "1", "ok", "nil"] ∧
+          (varRun (varInit .debug nilPtr) [.set (intVal 1), .read, .reset, .read]).2.log.length = 1 ∧
+          (varRun (varInit .off nilPtr) [.set (intVal 1), .read, .reset, .read]).2.log.length = 0 := by decide
+
 /-- With total fmt the process never dies in the logging code, in any configuration, whatever the scenario. -/
 theorem debug_never_crashes (env : Env) (tot : Total env) (cfg : Cfg) (ops : List Op) :
     (run env (initSt cfg) ops).2.dead = false :=
